@@ -961,6 +961,9 @@ class TorConfig:
             real_name = self._find_real_name(key)
             if not isinstance(value, list) and real_name in self.parsers:
                 value = self.parsers[real_name].parse(value)
+                if isinstance(value, list):
+                    value = _ListWrapper(
+                        value, functools.partial(self.mark_unsaved, real_name))
             self.config[real_name] = value
 
         # FIXME might want to re-think this, but currently there's no
